@@ -1,5 +1,6 @@
 import Indi.Properties.C05
 import Indi.Properties.C05b
+import Indi.Properties.Decisions
 #print axioms Indi.Rtr.process_deliveries
 #print axioms Indi.Rtr.policy_refinement
 #print axioms Indi.Rtr.C05_clients
@@ -17,3 +18,5 @@ import Indi.Properties.C05b
 #print axioms Indi.Rtr.procR_isBlob_own
 #print axioms Indi.Rtr.procR_rs_sublist
 #print axioms Indi.Rtr.traceR_deliveries_allowed
+#print axioms Indi.Decisions.routerDeliver_agrees
+#print axioms Indi.Decisions.routerIsBlob_agrees
